@@ -18,7 +18,7 @@ Inputs(p, b) == [n \in {Dn(p).inputs[i].n : i \in 1..Len(Dn(p).inputs)} |->
                    InVal(Dn(p).inputs[CHOOSE i \in 1..Len(Dn(p).inputs) : Dn(p).inputs[i].n = n], b)]
 
 VerdictOf(p) ==
-  LET E == Dn(p).adl
+  LET E == ExpandAlways(Dn(p).adl)
       D == Summary(E)
       s0 == SpecInit(E, D)
       a == SpecStep(E, D, s0, Inputs(p, 0), Dn(p).clk)
